@@ -7,8 +7,10 @@
 pub mod alloc;
 pub mod driver;
 pub mod entries_bin;
+pub mod entries_hist;
 pub mod entries_pc;
 pub mod entries_text;
+pub mod entries_transport;
 pub mod oracle;
 pub mod spaces;
 
@@ -89,6 +91,8 @@ pub struct Job {
 pub fn all_entries() -> Vec<Entry> {
     let mut v = vec![];
     v.extend(entries_bin::entries());
+    v.extend(entries_transport::entries());
+    v.extend(entries_hist::entries());
     v.extend(entries_text::entries());
     v.extend(entries_pc::entries());
     if std::env::var("C07_SELFTEST").is_ok() {
@@ -115,7 +119,7 @@ pub fn jobs(entries: &[Entry], thorough: bool) -> Vec<Job> {
         if k >= 2 {
             let nfr = frames.len() as f64;
             // every frame gets the full budget up to 4 frames, then the budget is shared
-            let per_frame = (alpha_budget * scale * (4.0 / nfr).min(1.0)).max(2000.0);
+            let per_frame = (alpha_budget * scale * (4.0 / nfr).min(1.0)).max(1500.0);
             let l = spaces::alpha_len_for(k, per_frame as u64).min(60);
             for f in &frames {
                 out.push(Job {
